@@ -123,15 +123,17 @@ func verifC20Ring(c *drv.Ctx) {
 		}
 		agree := false
 		var got []zzvenv.RingObs
-		for attempt := 0; attempt < 4 && !agree; attempt++ {
+		var labErr error
+		// a loaded machine: the softirq that carries a frame across the pair may be late; a disagreement (or a
+		// frame the monitor did not see in time) is retried with a settle time that grows to a third of a second
+		for attempt := 0; attempt < 6 && !agree; attempt++ {
 			if attempt > 0 {
-				lab.Settle *= 4 // a loaded machine: give the softirq more time
+				lab.Settle *= 4
 			}
 			base := labSeq(lab)
-			got, err = real(seq)
-			if err != nil {
-				c.Infra("ring lab %q: %v", seq, err)
-				return
+			got, labErr = real(seq)
+			if labErr != nil {
+				continue
 			}
 			for k := range got {
 				if got[k].Kind == "frame" {
@@ -143,9 +145,12 @@ func verifC20Ring(c *drv.Ctx) {
 				g, w := got[k], want[k]
 				agree = g.Kind == w.Kind && (g.Kind != "frame" || (g.ID == w.ID && g.Len == w.Len && (g.Len == g.Cap) == (w.Len == w.Cap) && g.CapLen == w.CapLen && g.WireLen == w.WireLen))
 			}
-			if attempt > 0 {
-				lab.Settle = 300 * time.Microsecond
-			}
+		}
+		lab.Settle = 300 * time.Microsecond
+		if labErr != nil && !agree {
+			// the laboratory itself failed six times in a row: inconclusive, not a disagreement
+			c.Note("ring lab %q: %v (sequence skipped)", seq, labErr)
+			continue
 		}
 		c.R.TracesValidated++
 		c.Outcome(show(want))
